@@ -144,6 +144,44 @@ Theorem C20_shipped_json : forall name,
 Proof. exact (shipped_json burrow_schema all_templates _ C20_table_embed C20_table_json). Qed.
 Print Assumptions C20_shipped_json.
 
+(* Which template a module executes.  Coordinator.Configure parses the file named by template-open (and, with
+   send-close, template-close) and hands the template objects to the module; Notify executes the close one for
+   stateGood and the open one otherwise.  Modelled: that association (Tmpl.load_templates / module_renders; tied to
+   the real Configure with its default parser by the "conf" cases of the probe).  Trusted: text/template's ParseFiles
+   on a fresh root yields a set whose only member is the named file's template. *)
+Theorem C20_module_renders_configured_template : forall sch tbl cfg m d,
+  NoDup (map mc_name cfg) -> In m cfg ->
+  module_renders sch tbl cfg (mc_name m) false d = exec sch (lookup_tmpl tbl (mc_open m)) d /\
+  (mc_send_close m = true ->
+   module_renders sch tbl cfg (mc_name m) true d = exec sch (lookup_tmpl tbl (mc_close m)) d).
+Proof. exact module_renders_configured_template. Qed.
+Print Assumptions C20_module_renders_configured_template.
+
+(* ... composed with the theorems above: every module configured with shipped template files renders, open and close,
+   for every status the evaluator can hand to a notifier; with HTTP / Slack template files, to well-formed JSON *)
+Theorem C20_configured_modules_render : forall cfg, NoDup (map mc_name cfg) ->
+  forall m good, In m cfg -> (good = true -> mc_send_close m = true) -> assoc (mc_file m good) all_templates <> None ->
+  forall ts minimum allowed now g, Eval.eval_group ts minimum allowed now = Eval.Ok g ->
+  forall nm cl gr id ex,
+    exists out, module_renders burrow_schema all_templates cfg (mc_name m) good
+                  (data_of burrow_schema nm cl gr id ex (Eval.filter_view g)) = Ok out.
+Proof. exact (fun cfg => configured_modules_render burrow_schema all_templates cfg C20_table_embed C20_table_all_render). Qed.
+Print Assumptions C20_configured_modules_render.
+
+Theorem C20_configured_modules_json : forall cfg, NoDup (map mc_name cfg) ->
+  forall m good, In m cfg -> (good = true -> mc_send_close m = true) ->
+  In (mc_file m good) ["default-http-post.tmpl"; "default-http-delete.tmpl"; "default-slack-post.tmpl"; "default-slack-delete.tmpl"] ->
+  forall ts minimum allowed now g, bounded ts -> Eval.eval_group ts minimum allowed now = Eval.Ok g ->
+  forall nm cl gr id ex,
+    safe_string cl = true -> safe_string gr = true -> safe_string id = true ->
+    forallb (fun kv => safe_string (snd kv)) ex = true -> group_names_safe nm (Eval.filter_view g) = true ->
+    forall out s,
+      module_renders burrow_schema all_templates cfg (mc_name m) good
+        (data_of burrow_schema nm cl gr id ex (Eval.filter_view g)) = Ok out ->
+      inst out s -> json_valid s = true.
+Proof. exact (fun cfg => configured_modules_json burrow_schema all_templates _ cfg C20_table_embed C20_table_json). Qed.
+Print Assumptions C20_configured_modules_json.
+
 (* ------------------------------------------------------------------------------------------------------------ *)
 (* Non-vacuity                                                                                                   *)
 (* ------------------------------------------------------------------------------------------------------------ *)
@@ -221,6 +259,27 @@ Proof. vm_compute. repeat split. Qed.
 (* the bound of C20_shipped_json is met by ordinary groups *)
 Example C20_ex_bounded : bounded [(1%Z, [ex_stalled; ex_ok; ex_stalled; ex_nocommit])].
 Proof. split; [vm_compute; discriminate|]. repeat constructor; vm_compute; discriminate. Qed.
+
+(* two modules sharing files: each renders its own open and close template *)
+Example C20_ex_configured_modules :
+  let cfg := [mkModcfg "pager" "default-http-post.tmpl" "default-http-delete.tmpl" true;
+              mkModcfg "chat" "default-slack-post.tmpl" "default-http-post.tmpl" false;
+              mkModcfg "mail" "default-email.tmpl" "default-email.tmpl" true] in
+  NoDup (map mc_name cfg) /\
+  match Eval.eval_group [(1%Z, [ex_stalled; ex_ok])] F32.f32_zero 0 3 with
+  | Eval.Ok g =>
+      let d := data_of burrow_schema ex_nm "c" "g" "i" [("api_key", "k")] (Eval.filter_view g) in
+      module_renders burrow_schema all_templates cfg "pager" true d = exec burrow_schema t_default_http_delete d /\
+      module_renders burrow_schema all_templates cfg "pager" false d = exec burrow_schema t_default_http_post d /\
+      module_renders burrow_schema all_templates cfg "chat" false d = exec burrow_schema t_default_slack_post d /\
+      module_renders burrow_schema all_templates cfg "chat" true d = Err "no close template (send-close is off)" /\
+      (exists out, module_renders burrow_schema all_templates cfg "mail" true d = Ok out)
+  | Eval.Crash => False
+  end.
+Proof.
+  split; [repeat constructor; simpl; intuition discriminate|].
+  vm_compute. repeat split. eexists; reflexivity.
+Qed.
 
 (* holes filled the way Go fills them: a concrete rendering of the close template is accepted by json_valid, and an
    unsafe name is exactly what breaks it (outside the property's promise) *)
